@@ -18,7 +18,9 @@ ENGINE = "symx"
 # (m, n, rates): rates None = every representative of R(m); else the representatives nearest to the listed values
 QUICK_SHAPES = [(3, 2, None), (3, 4, None), (4, 5, (0.0, 0.25, 0.5))]
 THOROUGH_SHAPES = [(1, 0, None), (1, 2, None), (2, 3, None), (3, 2, None), (3, 4, None), (4, 3, None), (4, 5, None), (4, 6, (0.0, 0.25, 0.5)),
-                   (5, 4, (0.0, 0.2, 0.4)), (5, 6, (0.0, 0.2, 0.4, 0.6)), (6, 7, (0.0, 0.17, 0.34))]
+                   (5, 4, (0.0, 0.2, 0.4)), (5, 6, (0.0, 0.2, 0.4))]
+# the largest shape only without wildcards (cost grows ~3x per extra base; wildcard modes 2-3x on top)
+THOROUGH_PLAIN_SHAPES = [(6, 7, (0.0, 0.17, 0.34))]
 
 
 def describe():
@@ -29,7 +31,7 @@ def describe():
         "bounds": {"quick": {"(adapter length, read length, rates)": QUICK_SHAPES, "adapter alphabet": AC.IUPAC_ALPHABET, "read alphabet": "all 7-bit ASCII",
                              "rates": "one representative per step of r -> trunc(r*L), L <= adapter length, on [0,1); where a shape lists rates, only the representatives nearest to them", "min_overlap": "symbolic 1..m+1",
                              "switches": "adapter wildcards x read wildcards x indels, all 8 classes (both wildcard switches together not at (4,5))"},
-                   "thorough": {"(adapter length, read length, rates)": THOROUGH_SHAPES, "note": "as quick, larger shapes; rates=None means every representative"}},
+                   "thorough": {"(adapter length, read length, rates)": THOROUGH_SHAPES, "without wildcards only": THOROUGH_PLAIN_SHAPES, "note": "as quick, larger shapes; rates=None means every representative"}},
         "outside_bounds": ["adapters / reads longer than the listed shapes", "non-ASCII reads (the kernels raise ValueError)", "lower-case adapters (the CLI upper-cases; the constructor does too)",
                            "score field of the match (not part of this property)"],
         "stubs": ["SingleAdapter._make_kmer_finder -> MockKmerFinder (prefilter can only suppress matches; see C07)"],
@@ -65,11 +67,14 @@ def configs(m, wanted=None):
 def jobs(tier, seed):
     shapes = QUICK_SHAPES if tier == "quick" else THOROUGH_SHAPES
     out = []
-    for (m, n, wanted) in shapes:
+    plain = [] if tier == "quick" else THOROUGH_PLAIN_SHAPES
+    for (m, n, wanted) in list(shapes) + plain:
         for kind in AC.BASIC_KINDS:
             for cfg in configs(m, wanted):
                 if tier == "quick" and (m, n) == (4, 5) and cfg["adapter_wildcards"] and cfg["read_wildcards"]:
                     continue   # quick tier: both wildcard switches together only at the smaller shapes
+                if (m, n, wanted) in plain and (cfg["adapter_wildcards"] or cfg["read_wildcards"]):
+                    continue
                 out.append({"name": "%s/m=%d/n=%d/%s" % (kind, m, n, AC.cfg_name(cfg)), "kind": kind, "m": m, "n": n, "cfg": cfg})
     return out
 
